@@ -356,6 +356,7 @@ func c03Format(r *core.Run) {
 		r.Check(strings.Join(got, " ") == ", : _", "C03.format", key+" : separators", w.Pos(f.Decl.Pos()), "separators are ':' ',' '_'",
 			"lock-key builder writes the constant separators {"+strings.Join(got, " ")+"}; the coordinator's format is table ':' pk ['_' pk2] {',' row}: the same row would yield a different key text")
 		r.Check(pkOrder, "C03.format", key+" : key order", w.Pos(f.Decl.Pos()), "key order from TableMeta.GetPrimaryKeyOnlyName", "lock-key builder does not take the primary-key order from TableMeta.GetPrimaryKeyOnlyName")
+		c03KeyPartText(r, f, key)
 		// ':' is written after the table name (first two writes)
 		first := firstWrites(f, 2)
 		r.Check(len(first) == 2 && strings.HasSuffix(first[0], ".TableName") && first[1] == `":"`, "C03.format", key+" : prefix", w.Pos(f.Decl.Pos()), "key starts with table name then ':'",
@@ -910,4 +911,149 @@ func c03MetaKey(r *core.Run) {
 	ok := len(keys) == 1 && len(loads) == 1 && keys[0] == loads[0] && (strings.Contains(keys[0], "strings.ToUpper(") || strings.Contains(keys[0], "strings.ToLower("))
 	r.Check(ok, "C03.format", core.ShortKey(f.Obj)+" loads an entry under its own normalised cache key", w.Pos(loadPos), "key and loaded name: "+strings.Join(keys, ","),
 		"the cache is keyed by ["+strings.Join(keys, ",")+"] but asks the loader for ["+strings.Join(loads, ",")+"]: TableMeta.TableName, the head of every lock key, then carries the spelling of whichever statement filled the entry, so two branches can register 't_user:1' and 'T_USER:1' for one row and the coordinator sees no conflict")
+}
+
+// c03ImageValueChain: how the AT executors turn a scanned value into the value a row image carries (the Value field
+// of every ColumnImage literal in exec/at that is filled from a scan slice), with the scanned element abstracted to X.
+func c03ImageValueChain(w *core.World) []string {
+	var out []string
+	for _, f := range w.SortedFuncs() {
+		if f.Pkg.PkgPath != pExecAT || w.IsTestFile(f.Decl.Pos()) || f.Decl.Body == nil {
+			continue
+		}
+		info := f.Pkg.TypesInfo
+		ast.Inspect(f.Decl.Body, func(n ast.Node) bool {
+			cl, ok := n.(*ast.CompositeLit)
+			if !ok {
+				return true
+			}
+			if t := info.TypeOf(cl); t == nil || !strings.HasSuffix(t.String(), "types.ColumnImage") {
+				return true
+			}
+			if v := litField(cl, "Value"); v != nil {
+				if c := abstractChain(origin(f, v, 6)); strings.Contains(c, "(") {
+					out = append(out, c)
+				}
+			}
+			return true
+		})
+	}
+	return uniq(out)
+}
+
+// abstractChain: the functions a value passes through, outermost first, up to where it was scanned
+// (call:f(call:g(range(call:GetScanSlice(..)))) -> "f <- g").
+func abstractChain(o string) string {
+	var names []string
+	rest := o
+	for {
+		i := strings.Index(rest, "call:")
+		if i < 0 {
+			break
+		}
+		rest = rest[i+len("call:"):]
+		// the name runs to the '(' of the argument list; a '(' right after a '.' opens the receiver type "(T)"
+		j := 0
+		for j < len(rest) {
+			if rest[j] == '(' {
+				if j > 0 && rest[j-1] == '.' {
+					if k := strings.IndexByte(rest[j:], ')'); k >= 0 {
+						j += k + 1
+						continue
+					}
+				}
+				break
+			}
+			j++
+		}
+		name := rest[:j]
+		if strings.Contains(name, "GetScanSlice") || strings.HasSuffix(name, ".Scan") {
+			break
+		}
+		names = append(names, name)
+		rest = rest[j:]
+	}
+	if len(names) == 0 {
+		return o
+	}
+	return strings.Join(names, " <- ") + "(X)"
+}
+
+// c03KeyPartText: the text of a key part is fmt's %v of the column value as the row images carry it — taken from
+// an image (ColumnImage.Value), or produced from the scanned value by the very chain of functions that fills the
+// images. A DML statement and a locking read then render the key of one row identically whatever the column type.
+func c03KeyPartText(r *core.Run, f *core.FuncInfo, key string) {
+	w := r.W
+	info := f.Pkg.TypesInfo
+	chains := c03ImageValueChain(w)
+	bad := ""
+	nParts := 0
+	ast.Inspect(f.Decl.Body, func(n ast.Node) bool {
+		c, ok := n.(*ast.CallExpr)
+		if !ok {
+			return true
+		}
+		callee := core.Callee(info, c)
+		if callee == nil {
+			return true
+		}
+		var val ast.Expr // the value rendered by this write
+		switch {
+		case strings.HasPrefix(callee.Name(), "WriteString") && len(c.Args) == 1:
+			if core.ConstVal(info, c.Args[0]) != nil {
+				return true
+			}
+			if strings.HasSuffix(origin(f, c.Args[0], 3), ".TableName") {
+				return true
+			}
+			inner, isCall := ast.Unparen(c.Args[0]).(*ast.CallExpr)
+			if !isCall {
+				bad = w.Pos(c.Pos()) + ": a key part is written as '" + core.ExprString(c.Args[0]) + "', not as fmt %v of the column value"
+				return true
+			}
+			g := core.Callee(info, inner)
+			switch {
+			case g != nil && g.Pkg() != nil && g.Pkg().Path() == "fmt" && g.Name() == "Sprintf" && len(inner.Args) == 2:
+				if v := core.ConstVal(info, inner.Args[0]); v == nil || v.Kind() != constant.String || constant.StringVal(v) != "%v" {
+					bad = w.Pos(c.Pos()) + ": a key part is formatted with " + core.ExprString(inner.Args[0]) + ", not %v"
+					return true
+				}
+				val = inner.Args[1]
+			case g != nil && g.Pkg() != nil && g.Pkg().Path() == "fmt" && g.Name() == "Sprint" && len(inner.Args) == 1:
+				val = inner.Args[0]
+			default:
+				bad = w.Pos(c.Pos()) + ": a key part is rendered by " + core.ExprString(inner.Fun) + ", not by fmt %v of the column value"
+				return true
+			}
+		case callee.Pkg() != nil && callee.Pkg().Path() == "fmt" && callee.Name() == "Fprintf" && len(c.Args) == 3:
+			if v := core.ConstVal(info, c.Args[1]); v == nil || v.Kind() != constant.String || constant.StringVal(v) != "%v" {
+				bad = w.Pos(c.Pos()) + ": a key part is formatted with " + core.ExprString(c.Args[1]) + ", not %v"
+				return true
+			}
+			val = c.Args[2]
+		default:
+			return true
+		}
+		nParts++
+		o := origin(f, val, 6)
+		if strings.HasSuffix(o, ".Value") && !strings.Contains(o, "reflect.") {
+			return true // the value of a column image
+		}
+		a := abstractChain(o)
+		for _, ch := range chains {
+			if a == ch {
+				return true
+			}
+		}
+		if bad == "" {
+			bad = w.Pos(c.Pos()) + ": the key part is the text of " + o + ", which is neither the value of a row image nor the scanned value passed through the chain that fills the images (" + strings.Join(chains, " | ") + ")"
+		}
+		return true
+	})
+	r.Sites++
+	if nParts == 0 && bad == "" {
+		bad = "no write of a key part found"
+	}
+	r.Check(bad == "", "C03.format", key+" : key parts are the image values as fmt %v renders them", w.Pos(f.Decl.Pos()), "same text for DML and locking reads",
+		bad+": a locking read and a DML statement then spell the key of one row differently for some column types, the coordinator (which matches text) answers 'lockable' for a row another transaction holds")
 }
